@@ -320,6 +320,8 @@ def run_tables(ctx):
             # C10: fold / unfold sweep over the whole code space, 16 ranges in parallel
             step = 0x110000 // 16
             cmds = ["set -o pipefail; %s fold %d %d | %s fold" % (harness_bin(), k * step, (k + 1) * step - 1 if k < 15 else 0x10FFFF, os.path.join(BUILD, "extract", "driver")) for k in range(16)]
+            # engine-level relation (backreference / literal / class / negated class through the public API), code space in 16 ranges
+            cmds += ["set -o pipefail; %s foldeq %d %d | %s foldeq" % (harness_bin(), k * step, (k + 1) * step - 1 if k < 15 else 0x10FFFF, os.path.join(BUILD, "extract", "driver")) for k in range(16)]
             with concurrent.futures.ThreadPoolExecutor(max_workers=NCPU) as ex:
                 for rc, out in ex.map(lambda c: sh(c, 900), cmds):
                     if rc != 0: broken.append("pipeline: rc=%d %s" % (rc, out[-300:]))
@@ -332,7 +334,7 @@ def run_tables(ctx):
     reported = 0
     for l in pv[:3]:
         dd = parse_kv(l)
-        path = write_replay(ctx, "input", dict(kind="failing-input", stream="props", query=dd.get("case"), flags=dd.get("flags"), detail=dd.get("detail")))
+        path = write_replay(ctx, "input", dict(kind="failing-input", stream="props" if ctx.pid == "C11" else "foldeq", query=dd.get("case"), flags=dd.get("flags"), detail=dd.get("detail")))
         report_violation(ctx, path); reported += 1
     if mism: broken.append("correspondence (%s): %d disagreements, first: %s" % ("S1 props lookup" if ctx.pid == "C11" else "S7 fold/unfold sweep", len(mism), mism[0][:300]))
     if ctx.pid == "C10":
